@@ -67,6 +67,29 @@ def dtype_base(t):
     return t
 
 
+def _dyn_cast(interp, name, x, dtv, st, node):
+    """np.asarray(v, dtype=A.dtype) / np.array(v, dtype=A.dtype) with A the caller's raw array: v is converted to
+    whatever A happens to hold - an integer A truncates a non-integer v.  Returns the cast value or None."""
+    if dtv is None:
+        return None
+    tag = _dtype_tag(dtv)
+    if not (isinstance(tag, tuple) and tag and tag[0] == "dtype"):
+        return None
+    db_, xb_ = dtype_base(tag[1]), dtype_base(x.term)
+    if db_ == xb_:
+        return None  # the value's own dtype
+    interp.event("shape-conflict", node, st, what="precision-loss: a value is converted to the dtype of the caller's raw array (an integer array truncates it)", a=name, b=repr(tag[1])[:60])
+    return fresh_arr(T("cast", x.term, tag[1]), shape(x), x.labels, None)
+
+
+def _is_input_selection(t):
+    """(a selection / reshaping of) a symbolic caller array"""
+    from . import terms as _terms
+
+    b = dtype_base(t)
+    return isinstance(b, Term) and b.op == "sym" and b.args and b.args[0] in _terms.INPUT_SYMS
+
+
 def _index_like(x):
     """integer-valued by construction (index vectors, counts): a cast to int keeps the values"""
     t = x.term
@@ -193,7 +216,11 @@ def np_geomspace(interp, name, args, kw, st, node):
 @reg("numpy.array", "numpy.copy")
 def np_array(interp, name, args, kw, st, node):
     x = arrv(args[0])
-    tag = _dtype_tag(kw.get("dtype") if "dtype" in kw else (args[1] if len(args) > 1 and name == "numpy.array" else None))
+    dtv_ = kw.get("dtype") if "dtype" in kw else (args[1] if len(args) > 1 and name == "numpy.array" else None)
+    dc_ = _dyn_cast(interp, name, x, dtv_, st, node)
+    if dc_ is not None:
+        return dc_
+    tag = _dtype_tag(dtv_)
     if not isinstance(tag, str):
         tag = None
     if tag == "float32":
@@ -238,6 +265,9 @@ def np_squeeze(interp, name, args, kw, st, node):
 def np_asarray(interp, name, args, kw, st, node):
     x = arrv(args[0])
     dtv = kw.get("dtype") if "dtype" in kw else (args[1] if len(args) > 1 and name in ("numpy.asarray", "numpy.asanyarray", "numpy.ascontiguousarray", "numpy.asfortranarray") else None)
+    dc_ = _dyn_cast(interp, name, x, dtv, st, node)
+    if dc_ is not None:
+        return dc_
     tg = _dtype_tag(dtv) if dtv is not None else None
     if tg == "float32":
         interp.event("shape-conflict", node, st, what="precision-loss: conversion to reduced precision", a=name, b="float32")
@@ -854,6 +884,12 @@ def np_unique(interp, name, args, kw, st, node):
                 n_ = (sx[0] if (k == "return_inverse" and sx is not None and sx) else ext)
                 outs.append(fresh_arr(T("unique_" + k[7:], x.term, *([("axis", const(0))] if rows else [])), (n_,), x.labels, "int"))
             return interp.mk_tuple(outs)
+    if base == "unique" and kw.get("axis") is not None and kw["axis"].has_const and kw["axis"].const == 0 and not [k for k in kw if k != "axis" and not (kw[k].has_const and not kw[k].const)]:
+        # the distinct rows (sorted): fewer rows than the input whenever a row repeats
+        x = arrv(args[0])
+        sx = shape(x)
+        if sx is not None and len(sx) == 2:
+            return fresh_arr(T("unique", x.term, ("axis", const(0))), (ext, sx[1]), x.labels, x.extra if isinstance(x.extra, str) else None)
     if base == "setdiff1d" and len(args) >= 2:
         d = _complement_extent(arrv(args[0]), args[1])
         if d is not None:
@@ -1907,6 +1943,10 @@ def attribute(interp, base, name, st, node):
             return x
         if name == "dtype":
             return V("unk", T("dtype", x.term), orig=x.orig)
+        if name in ("base", "strides", "flags", "ctypes", "data") and x.kind == "arr" and (any(isinstance(o_, tuple) and o_ and o_[0] in ("in", "optin") for o_ in (x.orig or ())) or _is_input_selection(x.term)):
+            # how the caller happens to store an array (a view of what, which strides) is not part of its value:
+            # a result that branches on it differs between equal inputs
+            interp.event("shape-conflict", node, st, what="layout-dependence: the memory layout / ownership of the caller's array is consulted", a=name, b=repr(x.term)[:60])
         if name == "flat" and x.kind == "arr":
             # a flat view of the same storage: writing through it writes the array
             tot = None
